@@ -697,7 +697,7 @@ def frame_obligations(interp, params_env, old_env, modifies, label):
 
 
 def verify_contract(c, registry, overrides=None, timeout_ms=10000, log=None, want_models=True,
-                    max_refuted=3):
+                    max_refuted=3, cfg_slice=None):
     """Symbolically execute the real function for every configuration and path, discharge all
     obligations.  Returns FnResult."""
     res = FnResult(c)
@@ -716,6 +716,8 @@ def verify_contract(c, registry, overrides=None, timeout_ms=10000, log=None, wan
     if c.config_filter:
         cfgs = [(cfg, ps) for cfg, ps in cfgs if c.config_filter(cfg, ps)]
     res.configs = len(cfgs)
+    if cfg_slice is not None:
+        cfgs = cfgs[cfg_slice[0]::cfg_slice[1]]
     ob_id = 0
     nref = 0
     for cfg, ps in cfgs:
@@ -736,6 +738,7 @@ def verify_contract(c, registry, overrides=None, timeout_ms=10000, log=None, wan
             it.sizes = {}
             it.ghost_env = {}
             it.top_fn = fn
+            ctx.ghost.update(c.ghost_init)
             outcome = None
             t0 = time.time()
             try:
@@ -764,7 +767,7 @@ def verify_contract(c, registry, overrides=None, timeout_ms=10000, log=None, wan
                     if r == z3.unsat:
                         raise Infeasible()
                 old = snapshot(it.clause_env(penv), {})
-                it.old_env = None
+                it.old_env = old
                 # argument binding: parameters by name
                 a = fn.args
                 names = [p.arg for p in a.posonlyargs + a.args + a.kwonlyargs]
@@ -834,6 +837,14 @@ def verify_contract(c, registry, overrides=None, timeout_ms=10000, log=None, wan
                         rec['model'] = {k: concretize(old[k], ob.model, memo) for k in penv}
                         rec['model_sizes'] = {k: concretize(v, ob.model) for k, v in it.sizes.items()}
                         rec['model']['__sizes__'] = rec['model_sizes']
+                        rec['model']['__aux__'] = [[nm, concretize(t, ob.model)] for nm, t in ctx.aux]
+                        consts = []
+                        for d in ob.model.decls():
+                            if d.arity() == 0 and len(consts) < 60:
+                                v = ob.model[d]
+                                if z3.is_fp(v) or z3.is_real(v):
+                                    consts.append([d.name(), concretize(v, ob.model)])
+                        rec['model']['__consts__'] = consts
                     except Exception as e:
                         rec['model_error'] = repr(e)
                 if st == 'unknown':
